@@ -701,6 +701,32 @@ func (st *state) partC(cfgs []optCfg, c1 func(optCfg) bool, as []assignment, K i
 					d["config"] = c.String()
 					return d
 				}
+				// the deterministic "best provider" entry point (sticky sessions), with the ignored set as it is and with
+				// two addresses added that are not candidates (the session manager passes ignored providers collected over
+				// the whole pairing while the candidate list is filtered): same well-formedness as for ChooseProvider
+				for _, foreign := range []bool{false, true} {
+					ign := map[string]struct{}{}
+					for k := range ignored {
+						ign[k] = struct{}{}
+					}
+					if foreign {
+						ign["lava@not-a-candidate-1"] = struct{}{}
+						ign["lava@not-a-candidate-2"] = struct{}{}
+					}
+					res := o.ChooseBestProvider(ctx, all, ign, 10, -2)
+					if len(res) > 1 {
+						st.viol("more-than-one-selected/best-provider", fmt.Sprintf("ChooseBestProvider returned %v", res), replay())
+					}
+					sel := ""
+					if len(res) == 1 {
+						sel = res[0]
+					}
+					lvl := "best-provider"
+					if foreign {
+						lvl = "best-provider+foreign-ignored"
+					}
+					st.checkSelection(lvl, sel, cands, replay)
+				}
 				counts := map[string]int{}
 				var sa []string
 				var w []float64
